@@ -200,6 +200,41 @@ Proof.
   intros Hl. exact (pbounded_join_large _ l o UO Il Io Hid ni D OK TO OT size Hs vu l' V J' Hl).
 Qed.
 
+
+(* ---- ... and logs that are RE-OPENED over any selection of another replica's entries (NewLog with
+   LogOptions.Entries: what NewFromEntryHash, NewFromEntry and NewFromJSON do with the result of a complete
+   or of a length-limited load), and everything merged from or appended to them afterwards.  [owf] asks
+   for hash-consistent appends only; joins carry any bound, selections are arbitrary.  The clock of a
+   re-opened log starts below its entries (NewLog computes it before it finds the heads); what remains
+   true is that nothing is newer than the newest head ([hmax]), which is what Append, Join and
+   SetIdentity read the clock together with. *)
+From IpfsLog Require Import Proofs.POpen.
+
+Theorem C16_reopened_logs_are_logs ops r l :
+  owf ops -> nth_error (s_logs (run ops)) r = Some l ->
+  (forall k e, In (k, e) (l_heads l) <-> In (k, e) (l_entries l) /\ ~ named_in (ents l) k) /\
+  (forall n, In n (okeys (l_next l)) <-> named_in (ents l) n) /\
+  (l_entries l <> [] -> l_heads l <> []) /\
+  (forall e, In e (ents l) -> e_time e <= hmax l) /\
+  NoDup (okeys (l_entries l)) /\ NoDup (okeys (l_heads l)) /\
+  (forall e, In e (ents l) -> e_logid e = l_id l).
+Proof. exact (olog_is_a_log ops r l). Qed.
+
+Theorem C16_reopened_any_merge_any_bound_never_panics ops r src l o size :
+  owf ops -> nth_error (s_logs (run ops)) r = Some l -> nth_error (s_logs (run ops)) src = Some o ->
+  snd (join l o (Nat.eqb r src) size) <> Panic.
+Proof. intros W L O. exact (ojoin_no_panic ops r l W L src o size O). Qed.
+
+Theorem C16_reopened_logs_linearise ops r l :
+  owf ops -> hist_bound ops < two63 -> nth_error (s_logs (run ops)) r = Some l -> order_total l ->
+  exists v, values l = Some v /\
+    NoDup (okeys v) /\
+    (forall k e, In (k, e) v <-> In (k, e) (l_entries l)) /\
+    StronglySorted (asc l) (oslice v) /\
+    (forall l1 e l2, oslice v = l1 ++ e :: l2 ->
+       forall n p, In n (e_next e) -> In (n, p) (l_entries l) -> In p l1).
+Proof. intros W Hlen L OT. exact (ovalues_linearise ops r l W L Hlen OT). Qed.
+
 From IpfsLog Require Import Model.ExampleHist Proofs.WfBool.
 Example C16_truncated_nonvacuous :
   pwf ex_hist_trunc /\ wfb ex_hist_trunc = false /\
@@ -220,6 +255,22 @@ Example C16_nonvacuous :
   end = Some ([102; 201; 301]%N, [102; 201; 301]%N).
 Proof. split; [apply wfb_wf; vm_compute; reflexivity|vm_compute; reflexivity]. Qed.
 
+Example C16_reopened_nonvacuous :
+  (* ex_hist_open: replica 1 is opened over {103,102} (clock 0 below its entries), appends 201 on top of 103
+     at time 4, merges replica 0 (102 is known, so 101 is not reached: an open log stays open); replica 0 then
+     merges it with bound 2 and keeps {103,201} *)
+  owf ex_hist_open /\ pwfb ex_hist_open = false /\
+  map (fun l => (CheckLog.nsort (okeys (l_entries l)), okeys (l_heads l), option_map okeys (values l), l_time l))
+      (s_logs (run (firstn 5 ex_hist_open))) =
+  [([101; 102; 103]%N, [103]%N, Some [101; 102; 103]%N, 3); ([102; 103]%N, [103]%N, Some [102; 103]%N, 0)] /\
+  map (fun l => (CheckLog.nsort (okeys (l_entries l)), okeys (l_heads l), option_map okeys (values l), l_time l))
+      (s_logs (run ex_hist_open)) =
+  [([103; 201]%N, [201]%N, Some [103; 201]%N, 4); ([102; 103; 201]%N, [201]%N, Some [102; 103; 201]%N, 4);
+   ([101; 102; 103; 301]%N, [301]%N, Some [101; 102; 103; 301]%N, 4)].
+Proof.
+  split; [apply owfb_owf; vm_compute; reflexivity|]. split; [vm_compute; reflexivity|]. split; vm_compute; reflexivity.
+Qed.
+
 Print Assumptions C16_join_never_panics.
 Print Assumptions C16_bounded_join_keeps_newest.
 Print Assumptions C16_bounded_join_forgets_dropped_entries.
@@ -229,3 +280,7 @@ Print Assumptions C16_truncated_logs_linearise.
 Print Assumptions C16_bounded_join_keeps_newest_all_pairs.
 Print Assumptions C16_truncated_nonvacuous.
 Print Assumptions C16_nonvacuous.
+Print Assumptions C16_reopened_logs_are_logs.
+Print Assumptions C16_reopened_any_merge_any_bound_never_panics.
+Print Assumptions C16_reopened_logs_linearise.
+Print Assumptions C16_reopened_nonvacuous.
